@@ -14,7 +14,8 @@ RULE = (
     "monotonicity, invert round trips, clamp. (b) histories: a pool of scales under domain/range/clamp/nice/copy steps (a step "
     "names its target modulo the pool size); after every step every scale must map the end points of the domain it reports to the "
     "end points of the range it reports and invert the range ends back to them, and every scale other than the target must be "
-    "unchanged (domain, range, clamp, outputs and inverses at probes). Non-trivial: (a) query differs from both ends; (b) a copy followed later by nice on either party. "
+    "unchanged (domain, range, clamp, outputs and inverses at probes); every scale must behave (scale and invert, inside and "
+    "outside its domain/range) exactly like a fresh scale given the domain, range and clamp it reports. Non-trivial: (a) query differs from both ends; (b) a copy followed later by nice on either party. "
     "distinct = distinct spec hash."
 )
 ASSUMPTIONS = [
@@ -195,6 +196,15 @@ def check_history(spec, ctx):
             y0, y1 = lib_call(x, d[0]), lib_call(x, d[1])
             if y0 != r[0] or y1 != r[1]:
                 raise Violation("reported-domain-not-mapped", "after step %d (%s on %d) scale %d reports domain %r range %r but maps the ends to %r, %r" % (n, op, i, j, d, r, y0, y1))
+            # reference model: behaviour is a function of the reported (domain, range, clamp) alone
+            fresh = lib_call(lambda: LinearScale().domain(list(d)).range(list(r)).clamp(x.clamp()))
+            span, rspan = d[1] - d[0], r[1] - r[0]
+            for q in (d[0] - span, d[0] + 0.3 * span, d[1] + 0.5 * span):
+                if lib_call(x, q) != lib_call(fresh, q):
+                    raise Violation("differs-from-fresh-scale", "after step %d (%s on %d) scale %d (domain %r range %r clamp %r): s(%r) = %r, a fresh scale with the same settings gives %r" % (n, op, i, j, d, r, x.clamp(), q, x(q), fresh(q)))
+            for y in (r[0] - rspan, r[0] + 0.3 * rspan, r[1] + 0.5 * rspan):
+                if lib_call(x.invert, y) != lib_call(fresh.invert, y):
+                    raise Violation("invert-differs-from-fresh-scale", "after step %d (%s on %d) scale %d (domain %r range %r clamp %r): invert(%r) = %r, a fresh scale with the same settings gives %r" % (n, op, i, j, d, r, x.clamp(), y, x.invert(y), fresh.invert(y)))
             x0, x1 = lib_call(x.invert, r[0]), lib_call(x.invert, r[1])
             if x0 != d[0] or x1 != d[1]:
                 raise Violation("invert-not-inverse-of-reported-state", "after step %d (%s on %d) scale %d reports domain %r range %r but inverts the range ends to %r, %r" % (n, op, i, j, d, r, x0, x1))
